@@ -12,6 +12,7 @@ import io
 import json
 import os
 import random
+import re
 import shutil
 import subprocess
 import sys
@@ -47,8 +48,11 @@ def use_repo():
 
 # --------------------------------------------------------------------------- build + audit
 
-FORBIDDEN = ["sorry", "admit", "native_decide", "bv_decide", "implemented_by",
-             "unsafe ", "maxHeartbeats 0"]
+FORBIDDEN = [(r"(?<![\w.'])sorry(?![\w'])", "sorry"), (r"(?<![\w.'])admit(?![\w'])", "admit"),
+             (r"native_decide", "native_decide"), (r"bv_decide", "bv_decide"),
+             (r"implemented_by", "implemented_by"), (r"(?<![\w.'])unsafe\s", "unsafe"),
+             (r"maxHeartbeats\s+0(?!\d)", "maxHeartbeats 0"), (r"^\s*axiom\s", "axiom"),
+             (r"(?<![\w.'])partial\s+def", "partial def")]
 
 
 def _strip_comments(text):
@@ -80,11 +84,9 @@ def grep_forbidden():
             path = os.path.join(base, fn)
             text = _strip_comments(open(path, encoding="utf8").read())
             for n, line in enumerate(text.splitlines(), 1):
-                for word in FORBIDDEN:
-                    if word in line:
+                for pat, word in FORBIDDEN:
+                    if re.search(pat, line):
                         hits.append(f"{path}:{n}: {word}")
-                if line.startswith("axiom "):
-                    hits.append(f"{path}:{n}: axiom")
     return hits
 
 
